@@ -36,6 +36,7 @@ var unsupportedToFeature = map[string][]string{
 	"inset-property": {"inset-property"},
 	"rebecca-purple": {"rebecca-purple"},
 	"is-pseudo-class": {"sel:is"},
+	"color-functions": {"fn:lab", "fn:lch", "fn:oklab", "fn:oklch", "fn:color"},
 }
 
 func randGlueOpts(r *Rng) glueOpts {
@@ -48,7 +49,7 @@ func randGlueOpts(r *Rng) glueOpts {
 	var names []string
 	if r.Chance(45) {
 		o.supported = map[string]bool{}
-		for _, f := range []string{"nesting", "hex-rgba", "modern-rgb-hsl", "hwb", "inset-property", "rebecca-purple"} {
+		for _, f := range []string{"nesting", "hex-rgba", "modern-rgb-hsl", "hwb", "inset-property", "rebecca-purple", "color-functions"} {
 			if r.Chance(40) {
 				o.supported[f] = false
 				names = append(names, f)
@@ -210,6 +211,7 @@ func compareCascade(d *dom, inItems, outItems []fitem, vars []string, r *Rng, st
 
 var boxLonghandRe = regexp.MustCompile(`^(margin-(top|right|bottom|left)|padding-(top|right|bottom|left)|top|right|bottom|left|border-(top|bottom)-(left|right)-radius)$`)
 
+var lchPctChromaRe = regexp.MustCompile(`(?i)\blch\(\s*[^\s,)]+\s+[0-9.]+%`)
 var ampInPseudoArgRe = regexp.MustCompile(`:(is|not|where)\([^{}]*&`)
 
 func insetLowered(o glueOpts) bool {
@@ -289,6 +291,10 @@ func glueTransformCase(r *Rng, st *Stats, src string, d *dom, o glueOpts, scenar
 					}
 				}
 			}
+			if scenario == "" && lchPctChromaRe.MatchString(src) && colorProps[fmt.Sprint(detail["property"])] {
+				// known finding C12-Q: lch() chroma percentages are resolved against 125 instead of 150
+				scenario = "lch-chroma-percentage-reference-range"
+			}
 			if scenario == "" && len(o.engines) > 0 && o.engines[0].Version != "100" && ampInPseudoArgRe.MatchString(src) {
 				// known finding C12-N: without :is(), "&" inside a pseudo-class argument under a
 				// multi-selector parent is substituted by the FIRST parent selector in every copy
@@ -342,7 +348,7 @@ func glueTransform(r *Rng, n int, st *Stats, cf *CoqFile) {
 		g.o.namespaces = r.Chance(25)
 		g.o.layers = r.Chance(60)
 		// wide-gamut colours only when nothing lowers them
-		g.o.wideColors = len(o.engines) == 0 && !o.minifySyntax && r.Chance(40)
+		g.o.wideColors = r.Chance(40)
 		src := g.sheet()
 		d := genDOM(r)
 		inItems, ok := glueTransformCase(r, st, src, d, o, "")
@@ -512,6 +518,9 @@ func glueCorpus(r *Rng, st *Stats) {
 		{"a{width:1.5e10px;order:1.0e10;height:1.50e2px;z-index:10.0e0}", min, "mangle-number-strips-exponent-zeros"},
 		{"b{inset:1px 2px 3px 4px} b.c2{inset:var(--v) 0 0 0}", noInset, "inset-lowering-skips-unsplittable-value"},
 		{"*, a:-moz-foo { color: red !important; > b { color: blue } }", noNest, "nesting-lowering-wraps-parent-in-forgiving-is"},
+		{"a{color:lch(60% 40% 120)}", min, "lch-chroma-percentage-reference-range"},
+		// must pass: the other percentage reference ranges (lab a/b 125, oklab a/b 0.4, oklch C 0.4, L 100 / 1)
+		{"a{color:lab(60 10% -15%)} b{color:oklab(.7 10% -20%)} div{color:oklch(70% 20% 200deg)} span{color:lch(60% 25 40)}", min, ""},
 		{"a { & b { color: red } } .c1 { & b { color: red } } a b { color: blue }", min, ""},
 		{"a { :not(&) > b { color: red } } span { :not(&) > b { color: red } }", min, ""},
 		{"div, a { :not(&).c1 { color: red } } .c1 { order: 1 }", glueOpts{loader: api.LoaderCSS, engines: []api.Engine{{Name: api.EngineFirefox, Version: "70"}}, desc: "loader=css target=firefox70"}, "nesting-amp-in-pseudo-arg-without-is"},
